@@ -32,7 +32,35 @@ var keySubst = map[ast.Node]string{}
 // conditions can be decomposed into their conjuncts/disjuncts through the helper.
 var astSubst = map[ast.Node]ast.Expr{}
 
+// caseTagOf: case expression of a tagged switch -> the switch tag. go/cfg represents
+// `switch t { case A: ... }` as a branch on the bare expression A; the fact carried by its edges
+// is t == A (true edge) / t != A (false edge), the same as for `if t == A`.
+var caseTagOf = map[ast.Expr]ast.Expr{}
+
+func buildCaseTags(p *Prog) {
+	for _, pk := range p.Pkgs {
+		if !strings.HasPrefix(pk.PkgPath, hivePrefix) {
+			continue
+		}
+		for _, f := range pk.Syntax {
+			ast.Inspect(f, func(n ast.Node) bool {
+				if sw, ok := n.(*ast.SwitchStmt); ok && sw.Tag != nil && sw.Body != nil {
+					for _, st := range sw.Body.List {
+						if cc, ok := st.(*ast.CaseClause); ok {
+							for _, e := range cc.List {
+								caseTagOf[e] = sw.Tag
+							}
+						}
+					}
+				}
+				return true
+			})
+		}
+	}
+}
+
 func buildKeySubst(p *Prog) {
+	buildCaseTags(p)
 	declOf := map[*types.Func]*ast.FuncDecl{}
 	var pkgs []*packages.Package
 	for _, pk := range p.Pkgs {
@@ -229,6 +257,28 @@ func substTemporaries(info *types.Info, fd *ast.FuncDecl) {
 		return false
 	}
 	scopeEnd := func() token.Pos {
+		// a variable declared in the init clause of if/switch/for is scoped to that statement
+		if len(stack) >= 2 {
+			self := stack[len(stack)-1]
+			switch par := stack[len(stack)-2].(type) {
+			case *ast.IfStmt:
+				if par.Init == self {
+					return par.End()
+				}
+			case *ast.SwitchStmt:
+				if par.Init == self {
+					return par.End()
+				}
+			case *ast.TypeSwitchStmt:
+				if par.Init == self {
+					return par.End()
+				}
+			case *ast.ForStmt:
+				if par.Init == self {
+					return par.End()
+				}
+			}
+		}
 		for i := len(stack) - 1; i >= 0; i-- {
 			switch b := stack[i].(type) {
 			case *ast.BlockStmt:
